@@ -22,3 +22,220 @@ pub fn media_merge(a: &MediaQuery, b: &MediaQuery) -> MergeResult {
         R::Success(q) => MergeResult::Success(q),
     }
 }
+
+// ---------------------------------------------------------------------------
+// lexer / parser primitives
+// ---------------------------------------------------------------------------
+
+use codemap::Span;
+
+use crate::{
+    lexer::{Lexer, Token},
+    parse::{
+        AtRootQueryParser, BaseParser, KeyframesSelectorParser, MediaQueryParser, SassParser,
+    },
+};
+
+/// A lexer over a token vector (wrapper so that the `pub(crate)` type can cross the crate boundary).
+pub struct VLexer(pub(crate) Lexer);
+
+impl VLexer {
+    /// Tokens get the byte positions the real `TokenLexer` would assign.
+    pub fn from_chars(chars: &[char], entire_span: Span, is_expanded: bool) -> Self {
+        let mut buf = Vec::with_capacity(chars.len());
+        let mut pos = 0u32;
+        for &c in chars {
+            buf.push(Token::verif_new(c, pos));
+            pos += c.len_utf8() as u32;
+        }
+        VLexer(Lexer::verif_from_tokens(buf, entire_span, is_expanded))
+    }
+
+    pub fn from_str(s: &str, entire_span: Span) -> Self {
+        VLexer(Lexer::new_from_string(s, entire_span))
+    }
+
+    pub fn len(&self) -> usize {
+        self.0.verif_tokens().len()
+    }
+
+    pub fn kind(&self, i: usize) -> char {
+        self.0.verif_tokens()[i].kind
+    }
+
+    pub fn pos(&self, i: usize) -> u32 {
+        self.0.verif_tokens()[i].verif_pos()
+    }
+
+    pub fn cursor(&self) -> usize {
+        self.0.cursor()
+    }
+
+    pub fn set_cursor(&mut self, c: usize) {
+        self.0.set_cursor(c);
+    }
+
+    pub fn advance(&mut self) -> Option<char> {
+        self.0.next().map(|t| t.kind)
+    }
+
+    pub fn current_span(&self) -> Span {
+        self.0.current_span()
+    }
+
+    pub fn prev_span(&self) -> Span {
+        self.0.prev_span()
+    }
+
+    pub fn span_from(&self, start: usize) -> Span {
+        self.0.span_from(start)
+    }
+}
+
+/// Operations of the `BaseParser` trait, run through the smallest real implementor.
+#[derive(Debug, Clone, Copy, PartialEq, Eq)]
+pub enum BaseOp {
+    Whitespace,
+    WhitespaceWithoutComments,
+    ScanComment,
+    SkipSilentComment,
+    SkipLoudComment,
+    ExpectWhitespace,
+    Spaces,
+    ConsumeEscapedChar,
+    ParseEscape(bool),
+    ParseString,
+    ParseIdentifier(bool, bool),
+    DeclarationValue(bool),
+    TryParseUrl,
+    LookingAtIdentifier,
+    ScanIdentifier(&'static str, bool),
+    ExpectIdentifier(&'static str, bool),
+}
+
+/// What a primitive produced (errors are reduced to their span).
+#[derive(Debug, Clone, PartialEq)]
+pub enum BaseOut {
+    Unit,
+    Bool(bool),
+    Char(char),
+    Text(String),
+    OptText(Option<String>),
+    Err(Span),
+}
+
+/// Errors are reduced to their span; the boxed error is leaked on purpose (its drop glue
+/// drags `io::Error` into the symbolic execution).
+fn err_span<T>(r: crate::error::SassResult<T>) -> Result<T, Span> {
+    match r {
+        Ok(v) => Ok(v),
+        Err(e) => {
+            let span = e.verif_raw_span();
+            std::mem::forget(e);
+            match span {
+                Some(s) => Err(s),
+                None => unreachable!("kernels only produce raw errors"),
+            }
+        }
+    }
+}
+
+pub fn base_op(lexer: VLexer, op: BaseOp) -> (BaseOut, VLexer) {
+    let mut p = KeyframesSelectorParser::new(lexer.0);
+    let out = base_op_on(&mut p, op);
+    let span = p.toks().current_span();
+    let toks = std::mem::replace(p.toks_mut(), Lexer::verif_from_tokens(Vec::new(), span, true));
+    (out, VLexer(toks))
+}
+
+fn base_op_on<P: BaseParser>(p: &mut P, op: BaseOp) -> BaseOut {
+    fn unit(r: Result<(), Span>) -> BaseOut {
+        match r {
+            Ok(()) => BaseOut::Unit,
+            Err(s) => BaseOut::Err(s),
+        }
+    }
+    fn text(r: Result<String, Span>) -> BaseOut {
+        match r {
+            Ok(s) => BaseOut::Text(s),
+            Err(s) => BaseOut::Err(s),
+        }
+    }
+    fn boolean(r: Result<bool, Span>) -> BaseOut {
+        match r {
+            Ok(s) => BaseOut::Bool(s),
+            Err(s) => BaseOut::Err(s),
+        }
+    }
+    match op {
+        BaseOp::Whitespace => unit(err_span(p.whitespace())),
+        BaseOp::WhitespaceWithoutComments => {
+            p.whitespace_without_comments();
+            BaseOut::Unit
+        }
+        BaseOp::ScanComment => boolean(err_span(p.scan_comment())),
+        BaseOp::SkipSilentComment => unit(err_span(p.skip_silent_comment())),
+        BaseOp::SkipLoudComment => unit(err_span(p.skip_loud_comment())),
+        BaseOp::ExpectWhitespace => unit(err_span(p.expect_whitespace())),
+        BaseOp::Spaces => {
+            p.spaces();
+            BaseOut::Unit
+        }
+        BaseOp::ConsumeEscapedChar => match err_span(p.consume_escaped_char()) {
+            Ok(c) => BaseOut::Char(c),
+            Err(s) => BaseOut::Err(s),
+        },
+        BaseOp::ParseEscape(start) => text(err_span(p.parse_escape(start))),
+        BaseOp::ParseString => text(err_span(p.parse_string())),
+        BaseOp::ParseIdentifier(normalize, unit) => {
+            text(err_span(p.parse_identifier(normalize, unit)))
+        }
+        BaseOp::DeclarationValue(allow_empty) => text(err_span(p.declaration_value(allow_empty))),
+        BaseOp::TryParseUrl => match err_span(p.try_parse_url()) {
+            Ok(s) => BaseOut::OptText(s),
+            Err(s) => BaseOut::Err(s),
+        },
+        BaseOp::LookingAtIdentifier => BaseOut::Bool(p.looking_at_identifier()),
+        BaseOp::ScanIdentifier(id, cs) => boolean(err_span(p.scan_identifier(id, cs))),
+        BaseOp::ExpectIdentifier(id, cs) => unit(err_span(p.expect_identifier(id, cs))),
+    }
+}
+
+/// The indented syntax overrides two trivia readers; they are run on the real `SassParser`.
+#[derive(Debug, Clone, Copy, PartialEq, Eq)]
+pub enum SassOp {
+    SkipLoudComment,
+    WhitespaceWithoutComments,
+    Whitespace,
+}
+
+pub fn sass_op(lexer: VLexer, options: &crate::Options<'_>, op: SassOp) -> (BaseOut, VLexer) {
+    let span = lexer.0.current_span();
+    let path = std::path::Path::new("");
+    let mut p = SassParser::new(lexer.0, options, span, path);
+    let r = match op {
+        SassOp::SkipLoudComment => err_span(p.skip_loud_comment()),
+        SassOp::WhitespaceWithoutComments => {
+            p.whitespace_without_comments();
+            Ok(())
+        }
+        SassOp::Whitespace => err_span(p.whitespace()),
+    };
+    let toks = std::mem::replace(&mut p.toks, Lexer::verif_from_tokens(Vec::new(), span, true));
+    (
+        match r {
+            Ok(()) => BaseOut::Unit,
+            Err(s) => BaseOut::Err(s),
+        },
+        VLexer(toks),
+    )
+}
+
+/// Whole small parsers (they own no hash-based state, so they are symbolically executable).
+pub fn parse_keyframes_selector(lexer: VLexer) -> Result<usize, Span> {
+    err_span(KeyframesSelectorParser::new(lexer.0).parse_keyframes_selector()).map(|v| v.len())
+}
+
+pub fn parse_media_query_list(lexer: VLexer) -> Result<Vec<MediaQuery>, Span> {
+    err_span(MediaQueryParser::new(lexer.0).parse())
+}
